@@ -453,6 +453,49 @@ def run(rep, ctx):
         r = [x for x in g.walk() if x["k"] == "ReturnStmt"]
         g1.check(len(r) == 1 and render(kids(r[0])[0]).replace(" ", "") == want, "adapter|%s" % nm, short_loc(g.loc), "%s() = %s" % (nm, want))
 
+    # ---- N1: absent vectors of a failure report are never dereferenced -------------------------------
+    n1 = rep.rule("C09.N1", "GUARD", "a failure is reported with absent (null) value vectors: every function that receives them reads them only under a null test", floor=1)
+    extra = export_many([dict(unit="src/solver.cc", fn=[r"mp::internal::PrintSolution"], repo=repo),
+                         dict(unit=MU, fn=[r"mp::internal::AppSolutionHandlerImpl::HandleSolution", r"mp::internal::SolutionWriterImpl::HandleSolution"], repo=repo)])
+    Fx = Facts(extra)
+    cons = [g for g in Fx.funcs if not g.is_dependent() and g.cfg is not None and g.qn in ("mp::internal::PrintSolution", "mp::internal::AppSolutionHandlerImpl::HandleSolution", "mp::internal::SolutionWriterImpl::HandleSolution")]
+    seen_q = set()
+    for g in cons:
+        if g.qn in seen_q:
+            continue
+        seen_q.add(g.qn)
+        ptrs = [p_ for p_ in g.params if (p_.get("ct") or "").replace(" ", "") == "constdouble*"]
+        for p_ in ptrs:
+            uses = []
+            for n in g.walk():
+                if n["k"] in ("ArraySubscriptExpr",) and strip(kids(n)[0]).get("declId") == p_["declId"]:
+                    uses.append(n)
+                if n["k"] == "UnaryOperator" and n.get("op") == "*" and strip(kids(n)[0]).get("declId") == p_["declId"]:
+                    uses.append(n)
+            bad = None
+            for u in uses:
+                fa = []
+
+                def add(c, pol):
+                    c = strip(c)
+                    while c["k"] == "UnaryOperator" and c.get("op") == "!":
+                        pol = not pol
+                        c = strip(kids(c)[0])
+                    if c["k"] == "BinaryOperator" and ((c.get("op") == "&&" and pol) or (c.get("op") == "||" and not pol)):
+                        add(kids(c)[0], pol); add(kids(c)[1], pol)
+                        return
+                    fa.append((c, pol))
+                for cid, pol in g.cfg.facts_at(u):
+                    add(g.nodes[cid], pol)
+                nonnull = any(strip(c).get("declId") == p_["declId"] and pol is True for c, pol in fa if strip(c)["k"] == "DeclRefExpr") or \
+                    any(c["k"] == "BinaryOperator" and c.get("op") == "!=" and strip(kids(c)[0]).get("declId") == p_["declId"] and cv(kids(c)[1]) == 0 and pol for c, pol in fa)
+                if not nonnull:
+                    bad = u
+            n1.check(bad is None, "%s|%s" % (g.qn.split("::")[-1] if g.qn.endswith("PrintSolution") else g.qn.split("::")[-2] + "::HandleSolution", p_["name"]), short_loc(g.loc),
+                     "%s reads %s (%d uses) only where it is known to be non-null" % (g.qn.split("::")[-1], p_["name"], len(uses)),
+                     "%s dereferences `%s` at %s on a path where it may be null: a failure reported with absent vectors (ReportError -> HandleSolution(code, msg, 0, 0, 0)) crashes instead of ending with a diagnostic" %
+                     (g.qn.split("::")[-1], p_["name"], short_loc(bad.get("l")) if bad else ""))
+
     # ---- P4 ---------------------------------------------------------------------------
     p4 = rep.rule("C09.P4", "PATH", "output-path faults are reported: explicit close (throws) on every normal exit, open failure throws", floor=3)
     w = one("mp::WriteSolFile")
